@@ -557,15 +557,12 @@ Qed.
 
 Lemma def_For i a o s b : def_ok b -> def_ok (For i a o s b).
 Proof.
-  intros HI rho pcs Hwf Hd Hg. cbn [wf] in Hwf. apply andb_prop in Hwf as (_ & Hwf). apply andb_prop in Hwf as (Hfv & Hwf).
-  apply andb_prop in Hfv as (Hfv & Fs). apply andb_prop in Hfv as (Fa & Fo). apply negb_true_iff in Fa, Fs, Fo.
+  intros HI rho pcs Hwf Hd Hg. cbn [wf] in Hwf. apply andb_prop in Hwf as (_ & Hwf).
   rewrite denote_For in Hd. destruct (as_int (eval rho a)) as [za|] eqn:Ea; [|discriminate].
   destruct (as_int (eval rho o)) as [zo|] eqn:Eo; [|discriminate]. destruct (as_int (eval rho s)) as [zs|] eqn:Es; [|discriminate].
   destruct (py_range za zo zs) as [ks|] eqn:Er; [|discriminate].
   cbn [guard_C07_defined] in Hg. unfold for_range in Hg. rewrite Ea, Eo, Es, Er in Hg.
   pose proof (as_int_val _ _ _ Ea) as Ia. pose proof (as_int_val _ _ _ Eo) as Io. pose proof (as_int_val _ _ _ Es) as Is.
-  assert (Inda : indep i a rho) by (intros v; apply eval_indep; exact Fa).
-  assert (Inds : indep i s rho) by (intros v; apply eval_indep; exact Fs).
   pose proof (den_for_Forall b i rho ks pcs Hd) as HDen.
   (* the body's facts at every index of the range *)
   assert (HB : forall k, In k ks -> defd (env_upd rho i (Some (inject_Z k))) (duration_expr b) /\
@@ -579,10 +576,10 @@ Proof.
   destruct (py_range_spec _ _ _ _ Er) as (Hsn & _ & _).
   split.
   - cbn [duration_expr].
-    exact (ev_eq_defd _ _ _ (for_sum_correct rho i a o s (duration_expr b) za zo zs ks _ Ia Io Is Inda Inds Er
+    exact (ev_eq_defd _ _ _ (for_sum_correct rho i a o s (duration_expr b) za zo zs ks _ Ia Io Is Er
                                (body_rule_of_defd rho i _ ks (fun k Hin => proj1 (HB k Hin))))).
   - intros q. destruct q; cbn [quant]; apply Hall; intros kv Hkv.
-    + exact (ev_eq_defd _ _ _ (for_sum_correct rho i a o s (snd kv) za zo zs ks _ Ia Io Is Inda Inds Er
+    + exact (ev_eq_defd _ _ _ (for_sum_correct rho i a o s (snd kv) za zo zs ks _ Ia Io Is Er
                                  (body_rule_of_defd rho i _ ks (HBe QIntegral kv Hkv)))).
     + destruct ks as [|k0 ks'].
       * apply andb_prop in Hg as (Hs & Hg). destruct (denote b (env_upd rho i (eval rho a))) as [x|] eqn:Ex; [|discriminate].
